@@ -369,3 +369,67 @@ fn build_observed_with(s: &Spec, observe: &mut dyn FnMut(&dyn rspack_sources::So
     leaf => build(leaf),
   }
 }
+
+/// Does an add-typed ConcatSource (style 1) that `build_shared` reaches - through ReplaceSource / CachedSource / Box layers
+/// and style-1 ConcatSources only; every other construction style is built exactly as `build` does - hold the same
+/// ConcatSource child twice, or repeat its first half?
+pub fn has_shareable_twins(s: &Spec) -> bool {
+  match s {
+    Spec::Concat { how: 1, children } => {
+      let n = children.len();
+      (n >= 2 && n % 2 == 0 && children[..n / 2] == children[n / 2..])
+        || children.iter().enumerate().any(|(i, x)| matches!(x, Spec::Concat { .. }) && children[..i].contains(x))
+        || children.iter().any(|x| !matches!(x, Spec::Concat { how, .. } if *how != 1) && has_shareable_twins(x))
+    }
+    Spec::Replace { inner, .. } => has_shareable_twins(inner),
+    Spec::Cached(inner) | Spec::Boxed(inner) => has_shareable_twins(inner),
+    _ => false,
+  }
+}
+
+/// `build`, except that in an add-typed ConcatSource (style 1) a ConcatSource child equal to an earlier sibling is handed
+/// over as a *clone of the object built for that sibling*, and a child list whose second half repeats the first is built
+/// as `c.add(c.clone())`: the flattening `add` then stores the very same reference-counted children at two positions.
+/// The calls differ from `build`'s, the value does not.
+pub fn build_shared(s: &Spec) -> BoxSource {
+  match s {
+    Spec::Concat { how: 1, children } => build_concat_shared(children).boxed(),
+    Spec::Replace { inner, repls } => {
+      let mut r = ReplaceSource::new(build_shared(inner));
+      for p in repls {
+        apply_repl(&mut r, p);
+      }
+      r.boxed()
+    }
+    Spec::Cached(inner) => CachedSource::new(build_shared(inner)).boxed(),
+    Spec::Boxed(inner) => build_shared(inner).boxed(),
+    leaf => build(leaf),
+  }
+}
+
+fn build_concat_shared(children: &[Spec]) -> ConcatSource {
+  let n = children.len();
+  let mut c = ConcatSource::default();
+  let half = n >= 2 && n % 2 == 0 && children[..n / 2] == children[n / 2..];
+  let upto = if half { n / 2 } else { n };
+  let mut typed: Vec<(usize, ConcatSource)> = vec![];
+  for (i, x) in children[..upto].iter().enumerate() {
+    match x {
+      Spec::Concat { how: h2, children: ch2 } => {
+        if let Some((_, t)) = typed.iter().find(|(j, _)| children[*j] == *x) {
+          c.add(t.clone());
+        } else {
+          let t = if *h2 == 1 { build_concat_shared(ch2) } else { build_concat(*h2, ch2) };
+          c.add(t.clone());
+          typed.push((i, t));
+        }
+      }
+      _ => add_typed(&mut c, x, build_shared(x)),
+    }
+  }
+  if half {
+    let twin = c.clone();
+    c.add(twin);
+  }
+  c
+}
